@@ -170,6 +170,11 @@ def oracle_case(lines, outs):
                 bad.append((i, f"{ln}: recorded clause {[S.show_lit(x) for x in c]} is not entailed by the added clauses"))
                 return bad
         decs = [S.parse_lit(x) for x in dump.get("dec", "").split()]
+        if t[0] == "check" and res in ("T", "F") and decs != prev_decs[:len(decs)]:
+            # check(lits) is a query: whatever it answers, the decisions standing afterwards are (a prefix of) those the
+            # caller had made; an assumption left standing makes every reported value rest on a decision nobody took
+            bad.append((i, f"{ln}: after check the standing decisions {[S.show_lit(d) for d in decs]} are not a prefix of the caller's {[S.show_lit(d) for d in prev_decs]}"))
+            return bad
         for v, b in vals.items():
             if v == 0:
                 continue
@@ -196,6 +201,17 @@ def oracle_case(lines, outs):
             for c in orig:
                 if not any(asg.get(l[0]) == l[1] for l in c):
                     bad.append((i, f"{ln}: total assignment after successful propagation falsifies added clause {[S.show_lit(x) for x in c]}"))
+                    return bad
+        # unit-propagation fixpoint (theorem C07_propagate_fixpoint, judged on the implementation's own dump): after a
+        # successful propagation with an empty queue no stored clause - learnt ones included - is falsified or unit
+        if res == "T" and dump.get("q", "0").strip() == "0" and t[0] in ("prop", "assume", "next", "bj"):
+            for c in cls_now:
+                if any(vals.get(l[0]) == l[1] for l in c):
+                    continue
+                free = [l for l in c if l[0] not in vals]
+                if len(free) <= 1:
+                    kind = "unit and not propagated" if free else "falsified"
+                    bad.append((i, f"{ln}: after successful propagation the stored clause {[S.show_lit(x) for x in c]} is {kind} (values {parts[1].strip()})"))
                     return bad
         prev_decs = prev_decs_next
     return bad
